@@ -108,6 +108,20 @@ def validate_parallel(module, cfg, recs, name, nchunks, max_concurrent=3):
 
 
 # ---------------------------------------------------------------------------------------------------------------------
+class LibraryRaised(Exception):
+    """wrapper for an exception that a compiled (numba) function of the library raised: such functions leave no frame in
+    the traceback, so the adapter that calls them says where the exception came from; args = (original exception,)"""
+
+
+def compiled_call(fn, *a, **kw):
+    """call of an njit-compiled library function: arithmetic / index / value errors come from the function body
+    (typing errors of numba and TypeError stay what they are: the harness called it wrongly)"""
+    try:
+        return fn(*a, **kw)
+    except (ArithmeticError, IndexError, ValueError, AssertionError) as ex:
+        raise LibraryRaised(ex) from ex
+
+
 class PrivateGone(Exception):
     """a private name / internal interface that a sub-check relies on is not there any more: skip the sub-check"""
 
@@ -130,6 +144,12 @@ def lib_call(rep, site, detail, fn, *a, **kw):
         return True, fn(*a, **kw)
     except (MachineryError, PrivateGone):
         raise
+    except LibraryRaised as lr:
+        ex = lr.args[0]
+        d = dict(detail)
+        d.update(error=f"{type(ex).__name__}: {str(ex)[:300]}", raised_in="compiled function of the library")
+        rep.violation(f"raises:{site}:{type(ex).__name__}", d)
+        return False, None
     except Exception as ex:
         if isinstance(ex, AttributeError) and type(getattr(ex, "obj", None)).__module__.startswith("harness"):
             raise PrivateGone(f"the library now uses an attribute that the harness double lacks: {ex}") from None
@@ -185,12 +205,14 @@ def run_parts(rep, body):
         if rep.violations:
             print(f"MACHINERY-NOTE property={rep.pid}: {type(ex).__name__}: {str(ex)[:500]} (the check stopped here; the violations found so far are reported)")
             try:
-                return rep.finish()
+                rc = rep.finish()
+                cleanup()
+                return rc
             except MachineryError:
                 pass
         raise
     rc = rep.finish()
-    if rc == 0:
+    if not any(str(k).startswith("spec:") for k, _ in rep.violations):      # a violated specification model keeps its tlc.out (named in the replay file)
         cleanup()
     return rc
 
